@@ -43,6 +43,8 @@ pub struct OdsChoices {
     pub deflate: bool,
     /// encrypted entries in the manifest (C20)
     pub encrypted_entries: usize,
+    /// manifest lists the unencrypted regular files (incl. a thumbnail) before the encrypted ones
+    pub plain_entries_first: bool,
     pub text_mode: xml::TextMode,
 }
 
@@ -57,6 +59,7 @@ impl Default for OdsChoices {
             row_wrappers: false,
             deflate: true,
             encrypted_entries: 0,
+            plain_entries_first: false,
             text_mode: xml::TextMode::Entities,
         }
     }
@@ -73,6 +76,7 @@ impl OdsChoices {
             row_wrappers: rng.chance(1, 3),
             deflate: rng.bool(),
             encrypted_entries: 0,
+            plain_entries_first: false,
             text_mode: *rng.pick(&xml::TEXT_MODES),
         }
     }
@@ -380,12 +384,20 @@ pub fn encode(book: &MBook, ch: &OdsChoices, rng: &mut Rng) -> Encoded {
     m.push_str(&format!("<manifest:file-entry manifest:full-path=\"/\" manifest:version=\"1.2\" manifest:media-type=\"{}\"/>", MIMETYPE));
     let mut content = x.into_bytes();
     let entries = ["content.xml", "styles.xml", "meta.xml", "settings.xml"];
+    let mut lines: Vec<(bool, String)> = vec![];
     for (i, e) in entries.iter().enumerate() {
         if i < ch.encrypted_entries {
-            m.push_str(&format!("<manifest:file-entry manifest:full-path=\"{}\" manifest:media-type=\"text/xml\" manifest:size=\"{}\"><manifest:encryption-data manifest:checksum-type=\"urn:oasis:names:tc:opendocument:xmlns:manifest:1.0#sha256-1k\" manifest:checksum=\"q1w2e3==\"><manifest:algorithm manifest:algorithm-name=\"http://www.w3.org/2001/04/xmlenc#aes256-cbc\" manifest:initialisation-vector=\"AAAA\"/><manifest:key-derivation manifest:key-derivation-name=\"PBKDF2\" manifest:key-size=\"32\" manifest:iteration-count=\"100000\" manifest:salt=\"BBBB\"/><manifest:start-key-generation manifest:start-key-generation-name=\"http://www.w3.org/2000/09/xmldsig#sha256\" manifest:key-size=\"32\"/></manifest:encryption-data></manifest:file-entry>", e, content.len()));
+            lines.push((true, format!("<manifest:file-entry manifest:full-path=\"{}\" manifest:media-type=\"text/xml\" manifest:size=\"{}\"><manifest:encryption-data manifest:checksum-type=\"urn:oasis:names:tc:opendocument:xmlns:manifest:1.0#sha256-1k\" manifest:checksum=\"q1w2e3==\"><manifest:algorithm manifest:algorithm-name=\"http://www.w3.org/2001/04/xmlenc#aes256-cbc\" manifest:initialisation-vector=\"AAAA\"/><manifest:key-derivation manifest:key-derivation-name=\"PBKDF2\" manifest:key-size=\"32\" manifest:iteration-count=\"100000\" manifest:salt=\"BBBB\"/><manifest:start-key-generation manifest:start-key-generation-name=\"http://www.w3.org/2000/09/xmldsig#sha256\" manifest:key-size=\"32\"/></manifest:encryption-data></manifest:file-entry>", e, content.len())));
         } else {
-            m.push_str(&format!("<manifest:file-entry manifest:full-path=\"{}\" manifest:media-type=\"text/xml\"/>", e));
+            lines.push((false, format!("<manifest:file-entry manifest:full-path=\"{}\" manifest:media-type=\"text/xml\"/>", e)));
         }
+    }
+    if ch.plain_entries_first && ch.encrypted_entries > 0 {
+        lines.push((false, "<manifest:file-entry manifest:full-path=\"Thumbnails/thumbnail.png\" manifest:media-type=\"image/png\"/>".to_string()));
+        lines.sort_by_key(|l| l.0); // stable: plain entries first
+    }
+    for (_, l) in &lines {
+        m.push_str(l);
     }
     m.push_str("</manifest:manifest>");
     if ch.encrypted_entries > 0 {
